@@ -466,6 +466,7 @@ static int ec_edit(char *loc, char *cmd, char *arg, char *txt)
 	char msg[128];
 	char *path;
 	int fd;
+	int rd = 1;
 	if (!strchr(cmd, '!'))
 		if (xb && !xwa && bufs_modified(0, "buffer modified"))
 			return 1;
@@ -486,7 +487,7 @@ static int ec_edit(char *loc, char *cmd, char *arg, char *txt)
 		bufs_switch(bufs_open(path));
 	fd = open(ex_path(), O_RDONLY);
 	if (fd >= 0) {
-		int rd = lbuf_rd(xb, fd, 0, lbuf_len(xb));
+		rd = lbuf_rd(xb, fd, 0, lbuf_len(xb));
 		close(fd);
 		snprintf(msg, sizeof(msg), "\"%s\"  [=%d]  [r]",
 				ex_path(), lbuf_len(xb));
@@ -495,7 +496,7 @@ static int ec_edit(char *loc, char *cmd, char *arg, char *txt)
 		else
 			ex_show(msg);
 	}
-	if (fd >= 0 || path[0])	/* a reload that cannot read the file keeps the changes */
+	if (!rd || path[0])	/* a reload that cannot read the file keeps the changes */
 		lbuf_saved(xb, path[0] != '\0');
 	bufs[0].mtime = mtime(ex_path());
 	xrow = MAX(0, MIN(xrow, lbuf_len(xb) - 1));
